@@ -64,7 +64,7 @@ def run_kani_part(pid, part, tier, seed, report):
         if r.unwind_failed:
             incon.append('%s: unwinding assertion failed (bound too small for this tree)' % q)
         sat = [d for d, s in r.covers.items() if s == 'SATISFIED']
-        if r.covers and not sat and r.status == 'ok':
+        if r.covers and not sat and (r.status == 'ok' or part.get('expect_failed')):
             incon.append('%s: vacuous (no reachability witness satisfied)' % q)
         for d, s in r.covers.items():
             report['witnesses'].setdefault(d, 0)
@@ -193,9 +193,14 @@ def main():
     report = {'instances': [], 'witnesses': {}, 'other_property_failures': [], 'kani_wall_s': 0.0,
               'counterexamples': [], 'known': [], 'inconclusive': []}
     violations, known_hits = [], []
-    for part in spec['parts']:
+    # cheap parts (E2) first; a confirmed violation is decisive, the remaining (expensive) parts are skipped
+    parts = sorted(spec['parts'], key=lambda p: 0 if p['engine'] == 'mir' else 1)
+    for part in parts:
         if tier == 'quick' and part.get('thorough_only'):
             continue
+        if violations and not os.environ.get('VERIF_ALL_PARTS'):
+            report['inconclusive_note'] = 'stopped after the first confirmed violation; parts not run: ' + (part.get('family') or 'mir')
+            break
         if part['engine'] == 'kani':
             cands, incon = run_kani_part(pid, part, tier, seed, report)
             report['inconclusive'] += incon
